@@ -181,6 +181,18 @@ static void blk_rs(void) {
 			if (g != want) { char key[128]; snprintf(key, sizeof key, "C01:rs-pairs:sm2_do_verify:%s", want ? "valid-rejected" : "invalid-accepted"); vh_viol(key, "\"key\":\"%s\",\"r\":\"%s\",\"s\":\"%s\"", DNAME[d], vh_hex(S[i], 32), vh_hex(S[j], 32)); }
 			SM2_Z256_POINT T[16]; sm2_z256_point_mul_pre_compute(&PUBKEYS[d].public_key, T); g = sm2_fast_verify(T, e, &sg) == 1; vh_eval(vh_hash(kk, sizeof kk, 4));
 			if (g != want) { char key[128]; snprintf(key, sizeof key, "C01:rs-pairs:sm2_fast_verify:%s", want ? "valid-rejected" : "invalid-accepted"); vh_viol(key, "\"key\":\"%s\",\"r\":\"%s\",\"s\":\"%s\"", DNAME[d], vh_hex(S[i], 32), vh_hex(S[j], 32)); }
+			/* the same pair under a digest SOLVED so that the equation holds whatever the ranges are: t=(r+s) mod n, X=[s]G+[t]P, e=r-x(X) mod n;
+			   a verifier that forgets one range / t!=0 test accepts exactly here */
+			{ BIGNUM *rr = BN_bin2bn(S[i], 32, NULL), *ss = BN_bin2bn(S[j], 32, NULL), *tt = BN_new(), *xx = BN_new(), *ee = BN_new(); EC_POINT *X = EC_POINT_new(sr_group()), *Pk = EC_POINT_new(sr_group());
+				BN_nnmod(ss, ss, n, c); BN_mod_add(tt, rr, ss, n, c); sr_point_from_xy(Pk, PUB[d]); EC_POINT_mul(sr_group(), X, ss, Pk, tt, c);
+				if (!EC_POINT_is_at_infinity(sr_group(), X)) { EC_POINT_get_affine_coordinates(sr_group(), X, xx, NULL, c); BN_mod_sub(ee, rr, xx, n, c); uint8_t e2[32]; sr_bn_to_bytes32(e2, ee);
+					int want2 = sr_verify(PUB[d], e2, S[i], S[j]); int g2 = sm2_do_verify(&PUBKEYS[d], e2, &sg) == 1; vh_eval(vh_hash(kk, sizeof kk, 6));
+					if (g2 != want2) { char key[128]; snprintf(key, sizeof key, "C01:rs-pairs:solved-digest:sm2_do_verify:%s", want2 ? "valid-rejected" : "invalid-accepted"); vh_viol(key, "\"key\":\"%s\",\"r\":\"%s\",\"s\":\"%s\",\"e\":\"%s\"", DNAME[d], vh_hex(S[i], 32), vh_hex(S[j], 32), vh_hex(e2, 32)); }
+					g2 = sm2_fast_verify(T, e2, &sg) == 1; vh_eval(vh_hash(kk, sizeof kk, 7));
+					if (g2 != want2) { char key[128]; snprintf(key, sizeof key, "C01:rs-pairs:solved-digest:sm2_fast_verify:%s", want2 ? "valid-rejected" : "invalid-accepted"); vh_viol(key, "\"key\":\"%s\",\"r\":\"%s\",\"s\":\"%s\",\"e\":\"%s\"", DNAME[d], vh_hex(S[i], 32), vh_hex(S[j], 32), vh_hex(e2, 32)); }
+					uint8_t der2[80]; size_t dl2 = enc_sig(der2, S[i], S[j]); g2 = sm2_verify(&PUBKEYS[d], e2, der2, dl2) == 1; vh_eval(vh_hash(kk, sizeof kk, 8));
+					if (g2 != want2) { char key[128]; snprintf(key, sizeof key, "C01:rs-pairs:solved-digest:sm2_verify:%s", want2 ? "valid-rejected" : "invalid-accepted"); vh_viol(key, "\"key\":\"%s\",\"r\":\"%s\",\"s\":\"%s\",\"e\":\"%s\"", DNAME[d], vh_hex(S[i], 32), vh_hex(S[j], 32), vh_hex(e2, 32)); } }
+				BN_free(rr); BN_free(ss); BN_free(tt); BN_free(xx); BN_free(ee); EC_POINT_free(X); EC_POINT_free(Pk); }
 			/* DER-encoded through both byte interfaces */
 			uint8_t der[80]; size_t dl = enc_sig(der, S[i], S[j]); int acc = verify_all(&PUBKEYS[d], DEFID, 16, MSG, 20, der, dl, e); vh_eval(vh_hash(kk, sizeof kk, 5)); expect_verdict("rs-pairs:der", d, acc, want, der, dl, "rs"); }
 	}
